@@ -238,9 +238,17 @@ func base() []Strat {
 			},
 		},
 		{
-			Name: "GoldenCross", InRegistry: true, Params: []reg.Param{per("fast", 50), per("slow", 200)},
-			Fix:   func(c *reg.Config) { sort2(&c.P[0], &c.P[1]) },
-			Build: func(c reg.Config) strategy.Strategy { return strend.NewGoldenCrossStrategyWith(c.P[0], c.P[1]) },
+			// FParams: the smoothing constants of the two EMAs (exported fields); with equal periods
+			// and different constants the two lines still differ
+			Name: "GoldenCross", InRegistry: true, Params: []reg.Param{per("fast", 50), per("slow", 200)}, FParams: []float64{2, 2},
+			Fix: func(c *reg.Config) { sort2(&c.P[0], &c.P[1]) },
+			Build: func(c reg.Config) strategy.Strategy {
+				s := strend.NewGoldenCrossStrategyWith(c.P[0], c.P[1])
+				if len(c.F) >= 2 && (c.F[0] != 2 || c.F[1] != 2) {
+					s.FastEma.Smoothing, s.SlowEma.Smoothing = c.F[0], c.F[1]
+				}
+				return s
+			},
 			Warm:  func(s strategy.Strategy) int { return s.(*strend.GoldenCrossStrategy).SlowEma.IdlePeriod() },
 			Doc:   "buy when the fastest EMA is above the slowest EMA, sell when below, hold otherwise",
 			Rule: func(s strategy.Strategy, f Fields) []Expect {
